@@ -126,7 +126,7 @@ func runC14(r *ev.Run, thorough bool) {
 	if thorough {
 		maxLen = 3
 	}
-	r.Rule = fmt.Sprintf("4 services x ALL byte strings of length <= %d; byte-sum automata 256x256 and CRC16 automaton (65,536 states x %s next bytes, each state reached by its 2-byte witness) against bitwise references; long inputs: uniform runs b^n for b in %s at n = ceil(2^31/b)-1,+0,+1 (<=32 MiB; hidden accumulator wider than the output), ramps and alternations at lengths 2^k-1,2^k,2^k+1 up to 2^%d; EVERY length 4..1200 (9000 in thorough) for uniform FF, ramp and alternating patterns; PROTOCOL-SHAPED inputs: the reference encodings of every message type at bases Z/D/L and of every frame/extended message under every registered key, whole, minus their last 1/2/4/8 bytes, minus their first 4 bytes (every prefix in thorough); every case on a partially consumed buffer, checking value, range 0..255 for byte sums, buffer untouched, second call equal; distinct = (algorithm,input)", maxLen, map[bool]string{false: "16", true: "256"}[thorough], map[bool]string{false: "{80,C0,FF}", true: "40..FF"}[thorough], map[bool]int{false: 16, true: 24}[thorough])
+	r.Rule = fmt.Sprintf("4 services x ALL byte strings of length <= %d; byte-sum automata 256x256 and CRC16 automaton (65,536 states x %s next bytes, each state reached by its 2-byte witness) against bitwise references; long inputs: uniform runs b^n for b in %s at n = ceil(2^31/b)-1,+0,+1 (<=32 MiB; hidden accumulator wider than the output), ramps and alternations at lengths 2^k-1,2^k,2^k+1 up to 2^%d; EVERY length 4..8200 (40000 in thorough) for uniform FF, ramp and alternating patterns; PROTOCOL-SHAPED inputs: the reference encodings of every message type at bases Z/D/L and of every frame/extended message under every registered key, whole, minus their last 1/2/4/8 bytes, minus their first 4 bytes (every prefix in thorough); every case on a partially consumed buffer, checking value, range 0..255 for byte sums, buffer untouched, second call equal; distinct = (algorithm,input)", maxLen, map[bool]string{false: "16", true: "256"}[thorough], map[bool]string{false: "{80,C0,FF}", true: "40..FF"}[thorough], map[bool]int{false: 16, true: 24}[thorough])
 	r.Assume("reference CRC-16/MODBUS, CRC-32/IEEE and byte sums are the bitwise implementations in engine/refmodel, checked against the published check values for \"123456789\"")
 	// self-check of the references against the published check values
 	if rm.CRC16Modbus([]byte("123456789")) != 0x4B37 || rm.CRC32IEEE([]byte("123456789")) != 0xCBF43926 {
@@ -234,9 +234,9 @@ func runC14(r *ev.Run, thorough bool) {
 	}
 	// every length 0..maxEvery for three patterns: catches defects tied to a particular length, block size or
 	// alignment (vectorised or multi-byte-per-step implementations) that powers of two +-1 would miss
-	maxEvery := 1200
+	maxEvery := 8200
 	if thorough {
-		maxEvery = 9000
+		maxEvery = 40000
 	}
 	for _, alg := range sumAlgs {
 		alg := alg
